@@ -75,7 +75,12 @@ class C16(Prop):
                 direction = rng.choice(["c2s", "c2s", "s2c"])
                 # the same point in other length units: exact power-of-two rescaling of the input, undone on the returned radius
                 scale = rng.choice([1.0] * 5 + [2.0 ** -40, 2.0 ** -30, 2.0 ** 30])
-                c = {"fam": "sphere", "dir": direction, "x": x, "shape": shape, "scale": scale,
+                idt = None
+                if direction == "c2s" and scale == 1.0 and rng.random() < 0.15:
+                    idt = rng.choice(["uint8", "int16", "int32"])
+                    top = {"uint8": 255, "int16": 3000, "int32": 60000}[idt]
+                    x = [float(rng.randint(0 if idt == "uint8" else -top, top)) if v != 0.0 else 0.0 for v in x]
+                c = {"fam": "sphere", "dir": direction, "x": x, "shape": shape, "scale": scale, "idt": idt,
                      "kind": "sphere/%s/n%d/%s%s%s" % (direction, dim, shape, "" if scale == 1.0 else "/scaled", "/arb" if arbx else "")}
                 if direction == "s2c":
                     r = dyad(rng, 0, 8, 8)
@@ -101,13 +106,18 @@ class C16(Prop):
             elif case["op"] == "c2b":
                 L1 = case["L1"]
                 L1a = None if L1 is None else (np.array(L1) if isinstance(L1, list) else L1)
-                out["Y"] = dreye.cartesian_to_barycentric(np.array(case["X"]), L1=L1a, centered=case["center"]).tolist()
+                Xin = core.watch(np.array(case["X"], dtype=float))
+                dreye.cartesian_to_barycentric(Xin, L1=L1a, centered=case["center"])      # asked twice with the same array: the caller's points stay where they are
+                out["Y"] = dreye.cartesian_to_barycentric(Xin, L1=L1a, centered=case["center"]).tolist()
             elif case["op"] == "reduce":
                 out["Y"] = barycentric_dim_reduction(np.array(case["X"]) * bsc, center=case["center"]).tolist()
             return out
         sc = case.get("scale", 1.0)
         if case["dir"] == "c2s":
-            y = np.array(dreye.cartesian_to_spherical(np.array([case["x"]]) * sc)[0], dtype=float)
+            xin = np.array([case["x"]]) * sc
+            if case.get("idt"):
+                xin = xin.astype(case["idt"])          # whole-number coordinates in a narrow integer dtype (8-bit RGB triples, 16-bit sensor counts)
+            y = np.array(dreye.cartesian_to_spherical(core.watch(xin))[0], dtype=float)
             y[0] = y[0] / sc
             ang = y[1:]
             return {"y": y.tolist(), "cos": np.cos(ang).tolist(), "sin": np.sin(ang).tolist()}
